@@ -36,61 +36,63 @@ func DFS(f Factory, bound, maxDepth, maxSchedules int, emit func(lines []string)
 	}
 	var stack []point
 	for {
-		e := f()
 		last := -1
 		pre := 0
 		depth := 0
 		var sched []int
-		for !e.AllDone() && depth < maxDepth && !e.Hung {
-			var p point
-			if depth < len(stack) {
-				p = stack[depth]
-			} else {
-				en := enabled(e)
-				// order: continue the running thread first (unless it yields), then the
-				// others in cyclic order after it
-				var cands, costs []int
-				lastOK := last >= 0 && !e.Done(last)
-				lastYield := lastOK && e.PendingYield(last)
-				if lastOK && !lastYield {
-					cands = append(cands, last)
-					costs = append(costs, 0)
-				}
-				for k := 1; k <= e.N(); k++ {
-					t := (last + k + e.N()) % e.N()
-					if last < 0 {
-						t = k - 1
-					}
-					if e.Done(t) || (lastOK && t == last) {
-						continue
-					}
-					c := 0
+		func() {
+			e := f()
+			defer e.Close()
+			for !e.AllDone() && depth < maxDepth && !e.Hung {
+				var p point
+				if depth < len(stack) {
+					p = stack[depth]
+				} else {
+					en := enabled(e)
+					// order: continue the running thread first (unless it yields), then the
+					// others in cyclic order after it
+					var cands, costs []int
+					lastOK := last >= 0 && !e.Done(last)
+					lastYield := lastOK && e.PendingYield(last)
 					if lastOK && !lastYield {
-						c = 1
+						cands = append(cands, last)
+						costs = append(costs, 0)
 					}
-					if pre+c > bound {
-						continue
+					for k := 1; k <= e.N(); k++ {
+						t := (last + k + e.N()) % e.N()
+						if last < 0 {
+							t = k - 1
+						}
+						if e.Done(t) || (lastOK && t == last) {
+							continue
+						}
+						c := 0
+						if lastOK && !lastYield {
+							c = 1
+						}
+						if pre+c > bound {
+							continue
+						}
+						cands = append(cands, t)
+						costs = append(costs, c)
 					}
-					cands = append(cands, t)
-					costs = append(costs, c)
+					if lastOK && lastYield && len(cands) == 0 {
+						// only the yielding thread is left
+						cands = append(cands, last)
+						costs = append(costs, 0)
+					}
+					_ = en
+					p = point{cands: cands, costs: costs, pick: 0, pre: pre}
+					stack = append(stack, p)
 				}
-				if lastOK && lastYield && len(cands) == 0 {
-					// only the yielding thread is left
-					cands = append(cands, last)
-					costs = append(costs, 0)
-				}
-				_ = en
-				p = point{cands: cands, costs: costs, pick: 0, pre: pre}
-				stack = append(stack, p)
+				t := p.cands[p.pick]
+				pre = p.pre + p.costs[p.pick]
+				e.Step(t)
+				sched = append(sched, t)
+				last = t
+				depth++
 			}
-			t := p.cands[p.pick]
-			pre = p.pre + p.costs[p.pick]
-			e.Step(t)
-			sched = append(sched, t)
-			last = t
-			depth++
-		}
-		e.Close()
+		}()
 		lines := make([]string, 0, len(sched)+2)
 		for _, t := range sched {
 			lines = append(lines, stepLine(t))
